@@ -216,7 +216,7 @@ def replay_xml(path, engines=None, timeout=120, rss_mb=3000):
     """re-executes one start-up input; returns (status, detail)"""
     variant = "san"
     exe = (engines or {}).get(("C10_pipeline", variant)) or build.ensure_engine("C10_pipeline", variant, extra_flags=['-DVERIF_VARIANT="%s"' % variant])
-    scratch = os.path.join(build.VERIF, "build", "run", "C17_replay_%d" % os.getpid())
+    scratch = os.path.join(build.BUILD, "run", "C17_replay_%d" % os.getpid())
     os.makedirs(scratch, exist_ok=True)
     env = dict(os.environ)
     env["ASAN_OPTIONS"] = "detect_leaks=0:exitcode=77:abort_on_error=0:allocator_may_return_null=1:hard_rss_limit_mb=%d" % rss_mb
@@ -278,7 +278,7 @@ def run(tier, seed, engines, job):
     t0 = time.time()
     variant = "san"
     exe = engines.get(("C10_pipeline", variant)) or build.ensure_engine("C10_pipeline", variant, extra_flags=['-DVERIF_VARIANT="%s"' % variant])
-    scratch = os.path.join(build.VERIF, "build", "run", "C17_faults")
+    scratch = os.path.join(build.BUILD, "run", "C17_faults")
     shutil.rmtree(scratch, ignore_errors=True)
     os.makedirs(scratch)
     env = dict(os.environ)
@@ -371,7 +371,7 @@ def run(tier, seed, engines, job):
         if r is None or r[0] != "ok":
             notes.append("valid template did not complete: %s %s" % (os.path.basename(xp), r))
             violations.append((xp, "the unmutated template %s is not accepted: %s" % (os.path.basename(xp), r)))
-    os.makedirs(os.path.join(build.VERIF, "build", "violations", "C17"), exist_ok=True)
+    os.makedirs(os.path.join(build.BUILD, "violations", "C17"), exist_ok=True)
     for batch, rs in zip(batches, res):
         for (tname, desc, xp), r in zip(batch, rs):
             st, detail = r if r else ("died", "no verdict")
@@ -394,7 +394,7 @@ def run(tier, seed, engines, job):
                         confirmed += 1
                         detail = rr[0][1]
                 if confirmed == tries:
-                    keep = keep_case(xp, os.path.join(build.VERIF, "build", "violations", "C17", os.path.basename(xp)[:-4]))
+                    keep = keep_case(xp, os.path.join(build.BUILD, "violations", "C17", os.path.basename(xp)[:-4]))
                     violations.append((keep, "%s, %s: start-up %s: %s" % (tname, desc, "hangs" if st == "hang" else "crashes", detail)))
                 else:
                     notes.append("unconfirmed %s on %s %s" % (st, tname, desc))
